@@ -444,7 +444,7 @@ func (x *Exec) appendOp(fr *Frame, st *State, cc *ssa.CallCommon) Term {
 	st.written["top"] = true
 	x.setHeap(st, h, store(x.heap(st, h), ref, newArr))
 	cp := vc.fresh("cap", SInt)
-	vc.assert(le(nl, cp))
+	vc.assert(and(le(nl, cp), le(cp, bigIntLit("9223372036854775807"))))
 	isNilRes := and(eq(sArr(s), intLit(0)), eq(addLen, intLit(0)))
 	r := ite(isNilRes, Term{"(mk-slice 0 0 0 0)", SSlice}, mkSlice(ref, intLit(0), nl, cp))
 	return vc.name("app", r)
